@@ -208,12 +208,47 @@ fn build(case: &Case) -> MarketGraph {
     MarketGraph::verif_from_edge_costs(config, &specs)
 }
 
+/// `--probe 1`: the minimal hand-made witness for the step-limited Bellman-Ford finding.
+fn probe() -> i32 {
+    // tokens A=0, B=1, C=2; M0: A->B cost 0.292; M1: A->C cost -0.076; M2: C->B cost 0.165; no reverse edges
+    let case = Case {
+        n_tokens: 3,
+        max_steps: 1,
+        markets: vec![
+            Mkt { token: crate::util::pk("c42-market", 0), long: 0, short: 1, l2s: Some(-292), s2l: None },
+            Mkt { token: crate::util::pk("c42-market", 1), long: 0, short: 2, l2s: Some(76), s2l: None },
+            Mkt { token: crate::util::pk("c42-market", 2), long: 2, short: 1, l2s: Some(-165), s2l: None },
+        ],
+    };
+    for max_steps in [1usize, 2] {
+        let mut c = case.clone();
+        c.max_steps = max_steps;
+        let g = build(&c);
+        for skip in [false, true] {
+            let paths = g.best_swap_paths(&token_pk(0), skip).unwrap();
+            let (rate, path) = paths.to(&token_pk(1));
+            println!(
+                "max_steps={max_steps} skip_bellman_ford={skip} negative_cycle={} arbitrage_exists={:?}: A->B rate={:?} path(markets)={:?}  oracle best cost(milli)={:?}",
+                has_negative_cycle(&c),
+                paths.arbitrage_exists(),
+                rate.map(|r| r.to_string()),
+                path.iter().map(|p| c.markets.iter().position(|m| m.token == *p)).collect::<Vec<_>>(),
+                brute(&c, 0)[1]
+            );
+        }
+    }
+    0
+}
+
 pub fn run(args: &Args) -> i32 {
+    if args.extra.contains_key("probe") {
+        return probe();
+    }
     let mut mon = Monitor::new(
         args,
         "case = random graph (2-6 tokens, 1-8 markets incl. occasional single-token markets and edges without estimate, ln rates in 0.001 steps with |ln rate| <= 1.2; styles: all costs >= 0 / potential-shifted (negative edges, no negative cycle) / free (negative cycles likely)), max_steps 0..=6, every source token, both search modes (Bellman-Ford with DFS fallback, DFS only), every target token. Oracle = exhaustive enumeration of market-simple paths within max_steps. Non-trivial = a (source,target,mode) query for which a path of >= 1 step exists within the limit; distinct = hash(tokens, markets, max_steps, mode, negative-cycle?, optimal path cost, returned path length).",
     );
-    let cases = args.scale(2_000, 60_000);
+    let cases = crate::util::scaled(args, 90_000, 1_300_000);
     let shards = 64u64;
     vcommon::monitor::run_shards(&mut mon, args.threads, shards, |shard, m| {
         let mut rng = Rng::derive(args.seed, shard, 42);
@@ -414,12 +449,12 @@ pub fn run(args: &Args) -> i32 {
             }
         }
     });
-    mon.require("graphs_with_negative_cycle", 200);
-    mon.require("graphs_without_negative_cycle", 200);
-    mon.require("queries_with_path:bellman_ford", 2_000);
-    mon.require("queries_with_path:dfs", 2_000);
-    mon.require("queries_with_path:dfs_fallback", 500);
-    mon.require("rate_matches_path_cost", 2_000);
+    crate::util::req(args, &mut mon, "graphs_with_negative_cycle", 200);
+    crate::util::req(args, &mut mon, "graphs_without_negative_cycle", 200);
+    crate::util::req(args, &mut mon, "queries_with_path:bellman_ford", 2_000);
+    crate::util::req(args, &mut mon, "queries_with_path:dfs", 2_000);
+    crate::util::req(args, &mut mon, "queries_with_path:dfs_fallback", 500);
+    crate::util::req(args, &mut mon, "rate_matches_path_cost", 2_000);
     mon.assume("'no arbitrage cycle exists' is read as: no negative-cost directed cycle anywhere in the graph (decided by an independent exact-integer Bellman-Ford)");
     mon.assume("rate tolerance: relative 5e-6 against f64 exp(-sum cost); path costs are exact multiples of 0.001 so a wrong edge differs by >= 1e-3 relative");
     mon.assume("for a single-token market on a path either of its two self-loop edges is accepted as 'the' edge");
